@@ -178,4 +178,100 @@ theorem SysInv.write1 {s s' : Sys} (h : SysInv s) {n : String} {sd sd' : Side} {
     · simp only [hk, if_false] at hsk hgk
       exact (h.node k sdk gk hsk hgk).mono hle.proxy hle.admin
 
+/-! ## receive-side steps -/
+
+theorem Sys.gossip_eq (s : Sys) (op : Gossip.Op) (hnj : ∀ n m now, op ≠ .join n m true now) :
+    s.gossip op = { net := (s.net.step op).net,
+                    side := Sys.feed s.side (s.net.step op).who (s.net.step op).events } := by
+  cases op with
+  | join n m rd now =>
+    cases rd with
+    | false => rfl
+    | true => exact absurd rfl (hnj n m now)
+  | _ => rfl
+
+/-- a receive-side step that changes no node and notifies nothing (errors, `sendDigest`) -/
+theorem SysInv.recv_same {s : Sys} (h : SysInv s) (op : Gossip.Op) (hop : Flow.Recv op)
+    (hnj : ∀ n m now, op ≠ .join n m true now)
+    (hnodes : (s.net.step op).net.nodes = s.net.nodes) (hev : (s.net.step op).events = []) :
+    SysInv (s.gossip op) := by
+  rw [Sys.gossip_eq s op hnj, hev, Sys.feed_nil]
+  exact h.congr hnodes rfl (Flow.FlowInv.step_recv s.good_marker h.flow op hop).1.pool
+
+/-- a receive-side step in which the acting node moves `g → g'` (C14-good, own node untouched) -/
+theorem SysInv.recv_one {s : Sys} (h : SysInv s) (op : Gossip.Op) (hop : Flow.Recv op)
+    (hnj : ∀ n m now, op ≠ .join n m true now) {g g' : CState}
+    (hg : s.net.nodes.find (s.net.step op).who = some g)
+    (hnodes : (s.net.step op).net.nodes = s.net.nodes.insert (s.net.step op).who g')
+    (hgood : C14.Good g (g', (s.net.step op).events)) (hown : own g' = own g)
+    (hlive : ∀ sd, s.side.find (s.net.step op).who = some sd →
+      SyncerSpec.Trace SyncerSpec.LiveOKn (s.net.step op).who (SyncerSpec.foldEvents sd.evs) (s.net.step op).events) :
+    SysInv (s.gossip op) ∧ Sys.Le s (s.gossip op) := by
+  obtain ⟨sd, hsd⟩ := h.side_of_net hg
+  have hfl := Flow.FlowInv.step_recv s.good_marker h.flow op hop
+  rw [Sys.gossip_eq s op hnj]
+  refine h.observe1 (s' := Sys.mk (s.net.step op).net (Sys.feed s.side (s.net.step op).who (s.net.step op).events))
+    hsd hg hnodes (fun k => Sys.find_feed _ _ _ hsd k) hgood hown (hlive sd hsd) hfl.2.1 ?_ hfl.1.pool
+  exact hfl.1.find (by rw [hnodes]; exact AMap.find_insert_self _ _ _)
+
+theorem SysInv.live_of_notLive {s : Sys} (op : Gossip.Op) (h : SysInv s) (hop : Flow.Recv op)
+    (hne : ∀ n sus now, op ≠ .liveness n sus now) (l : String) (v : SyncerSpec.WView) :
+    SyncerSpec.Trace SyncerSpec.LiveOKn l v (s.net.step op).events :=
+  SyncerSpec.trace_live_of_notLive l _ v
+    ((Flow.FlowInv.step_recv s.good_marker h.flow op hop).2.2 hne)
+
+theorem stWF_ownPresent {g : CState} (h : C14.StWF g) : OwnPresent g := by
+  obtain ⟨_, _, l, hl, _⟩ := h
+  exact ⟨l, hl⟩
+
+theorem SysInv.step_sendDigest {s : Sys} (h : SysInv s) (n dst : String) (rq : Bool) (perm : List Nat) (cut : Nat) :
+    SysInv (s.step (.sendDigest n dst rq perm cut)) := by
+  apply h.recv_same (.sendDigest n dst rq perm cut) trivial (fun _ _ _ => by simp)
+  · simp only [Net.step]; split <;> rfl
+  · simp only [Net.step]; split <;> rfl
+
+theorem SysInv.step_deliver {s : Sys} (h : SysInv s) (i cut : Nat) (perm : List Nat) (dcut now : Nat) :
+    SysInv (s.step (.deliver i cut perm dcut now)) := by
+  have hnj : ∀ n m now', Gossip.Op.deliver i cut perm dcut now ≠ .join n m true now' := fun _ _ _ => by simp
+  have hnl : ∀ n sus now', Gossip.Op.deliver i cut perm dcut now ≠ .liveness n sus now' := fun _ _ _ => by simp
+  show SysInv (s.gossip (.deliver i cut perm dcut now))
+  cases hpk : s.net.pool[i]? with
+  | none =>
+    apply h.recv_same (.deliver i cut perm dcut now) trivial hnj <;> simp [Net.step, hpk]
+  | some pk =>
+    cases pk with
+    | digest src sa dst rq d =>
+      cases hb : s.net.nodeByAddr dst with
+      | none => apply h.recv_same (.deliver i cut perm dcut now) trivial hnj <;> simp [Net.step, hpk, hb]
+      | some q =>
+        obtain ⟨id, g⟩ := q
+        obtain ⟨hf, _⟩ := nodeByAddr_spec h.nd hb
+        obtain ⟨sd, hsd⟩ := h.side_of_net hf
+        have hni := h.node id sd g hsd hf
+        have hwho : (s.net.step (.deliver i cut perm dcut now)).who = id := by simp [Net.step, hpk, hb]
+        refine (h.recv_one (.deliver i cut perm dcut now) trivial hnj (g := g) (g' := (applyDigest g d).1) (by rw [hwho]; exact hf) ?_ ?_ ?_ ?_).1
+        · simp [Net.step, hpk, hb, Net.setNode, handleDigest]
+        · have : (s.net.step (.deliver i cut perm dcut now)).events = (applyDigest g d).2 := by
+            simp [Net.step, hpk, hb, handleDigest]
+          rw [this]; exact C14.applyDigest_good g d hni.wf
+        · exact own_applyDigest d g (stWF_ownPresent hni.wf)
+        · intro _ _; exact h.live_of_notLive (.deliver i cut perm dcut now) trivial hnl _ _
+    | delta src sa dst d =>
+      cases hb : s.net.nodeByAddr dst with
+      | none => apply h.recv_same (.deliver i cut perm dcut now) trivial hnj <;> simp [Net.step, hpk, hb]
+      | some q =>
+        obtain ⟨id, g⟩ := q
+        obtain ⟨hf, _⟩ := nodeByAddr_spec h.nd hb
+        obtain ⟨sd, hsd⟩ := h.side_of_net hf
+        have hni := h.node id sd g hsd hf
+        have hwho : (s.net.step (.deliver i cut perm dcut now)).who = id := by simp [Net.step, hpk, hb]
+        have hdg : Flow.DeltaGood s.Good d := h.flow.pool _ _ _ _ (List.mem_of_getElem? hpk)
+        refine (h.recv_one (.deliver i cut perm dcut now) trivial hnj (g := g) (g' := (applyDelta now g d).1) (by rw [hwho]; exact hf) ?_ ?_ ?_ ?_).1
+        · simp [Net.step, hpk, hb, Net.setNode]
+        · have : (s.net.step (.deliver i cut perm dcut now)).events = (applyDelta now g d).2 := by
+            simp [Net.step, hpk, hb]
+          rw [this]; exact C14.applyDelta_good now g d hni.wf hni.keys (Sys.deltaOK_of_good hdg)
+        · exact own_applyDelta now d g
+        · intro _ _; exact h.live_of_notLive (.deliver i cut perm dcut now) trivial hnl _ _
+
 end Piko
